@@ -565,7 +565,7 @@ FIXED_CLASSES = [
     ("narrow-int-array-index:OverflowError", _narrow_array,
      # (was: posify_index `ind + shape` / _vindex `ind >= size` did the bounds arithmetic in the dtype of the index array and NumPy
      # refused the Python integer `shape` when the dtype cannot hold it; repaired in /repo ec3e431)
-     ("crash:OverflowError", "index-crash:OverflowError", "values", "shape", "refuses-valid-index"),
+     ("crash:OverflowError", "index-crash:OverflowError"),
      [{"fam": "list", "shape": [256], "chunks": [[256]], "acc": "getitem", "index": [["a", [0], "uint8"]]},
       {"fam": "list", "shape": [128, 2], "chunks": [[64, 64], [2]], "acc": "getitem", "index": [["l", [-1, 5], "int8"]]},
       {"fam": "list", "shape": [70000], "chunks": [[65536, 4464]], "acc": "getitem", "index": [["a", [-32768, 32767, -1, 0], "int16"]]},
@@ -1476,7 +1476,7 @@ def search(ctx, n_cases):
     import time
 
     swept, t_sweep = 0, time.time()
-    for _ in range(ctx.scale(1, 8)):
+    for _ in range(ctx.scale(1, 6)):
         for case in c12_sizes.stratified(rng):
             if avoid(case):
                 skipped += 1
@@ -1899,7 +1899,7 @@ def run(ctx, replay=None):
     t0 = time.time()
     correspondence(ctx)
     t1 = time.time()
-    search(ctx, ctx.scale(5200, 125000))
+    search(ctx, ctx.scale(5200, 105000))
     ctx.notes["wall_correspondence_s"] = round(t1 - t0, 1)
     ctx.notes["wall_search_s"] = round(time.time() - t1, 1)
     if ctx.disagreements:
